@@ -598,63 +598,74 @@ func c03Frames(c *Ctx, p *Prog, m *Model) {
 			if !ok || in.Block() == nil {
 				return false
 			}
-			var holds func(cd ssa.Value, depth int) bool
-			holds = func(cd ssa.Value, depth int) bool {
-				cd, neg := normCond(cd)
-				if neg || depth > 6 {
+			isW := func(v ssa.Value) bool { return wparam != nil && te.eval(v, a.C).mentionsParam(wparam) }
+			// "found by a finder": i >= 0 (or != -1, > -1) with i the result of a private helper or slices.Index that
+			// returns a non-negative position only for an element it compared with the writer handed to it
+			found := func(cd ssa.Value) bool {
+				bo, ok := cd.(*ssa.BinOp)
+				if !ok {
 					return false
 				}
-				switch x := cd.(type) {
-				case *ssa.BinOp:
-					return x.Op == token.EQL && wparam != nil && (te.eval(x.X, a.C).mentionsParam(wparam) || te.eval(x.Y, a.C).mentionsParam(wparam))
-				case *ssa.Phi:
-					// short-circuit value: every way of being true passes a comparison with the writer
-					for i, ed := range x.Edges {
-						if cb, isC := constBool(ed); isC {
-							if !cb {
-								continue
-							}
-							pi := ifOf(x.Block().Preds[i])
-							if pi == nil || !holds(pi.Cond, depth+1) {
-								return false
-							}
-							continue
-						}
-						if !holds(ed, depth+1) {
-							return false
-						}
-					}
-					return true
-				}
-				return false
-			}
-			// the block is entered only over true-edges of comparisons with the writer
-			seen := map[*ssa.BasicBlock]bool{}
-			var only func(b *ssa.BasicBlock) bool
-			only = func(b *ssa.BasicBlock) bool {
-				if seen[b] {
-					return true
-				}
-				seen[b] = true
-				for _, g := range guardsOf(b) {
-					if g.Succ == 0 && holds(g.If.Cond, 0) {
-						return true
-					}
-				}
-				if len(b.Preds) == 0 {
+				k, isC := constInt(bo.Y)
+				if !isC || !((bo.Op == token.GEQ && k == 0) || (bo.Op == token.GTR && k == -1) || (bo.Op == token.NEQ && k == -1)) {
 					return false
 				}
-				for _, pr := range b.Preds {
-					if iff := ifOf(pr); iff != nil && pr.Succs[0] == b && pr.Succs[1] != b && holds(iff.Cond, 0) {
+				call, ok := strip(bo.X).(*ssa.Call)
+				if !ok {
+					return false
+				}
+				cal := calleeOf(call)
+				if cal == nil {
+					return false
+				}
+				widx := -1
+				for ai, arg := range call.Common().Args {
+					if isW(arg) {
+						widx = ai
+					}
+				}
+				if widx < 0 {
+					return false
+				}
+				if on := origin(cal).String(); on == "slices.Index" {
+					return true
+				}
+				if cal.Pkg != p.Slog || len(cal.Blocks) == 0 || widx >= len(cal.Params) {
+					return false
+				}
+				wp := cal.Params[widx]
+				isW2 := func(v ssa.Value) bool {
+					for _, sv := range sources(v) {
+						if mi, ok := sv.(*ssa.MakeInterface); ok {
+							sv = mi.X
+						}
+						if ct, ok := sv.(*ssa.ChangeInterface); ok {
+							sv = ct.X
+						}
+						if sv == ssa.Value(wp) {
+							return true
+						}
+					}
+					return false
+				}
+				for _, b := range cal.Blocks {
+					ret, ok := b.Instrs[len(b.Instrs)-1].(*ssa.Return)
+					if !ok || len(ret.Results) != 1 {
 						continue
 					}
-					if !only(pr) {
-						return false
+					for pi, src := range phiEdgesWithPreds(ret.Results[0], b) {
+						_ = pi
+						if c, isC := constInt(src.v); isC && c < 0 {
+							continue
+						}
+						if !enteredOnlyOverCompare(src.from, isW2) {
+							return false
+						}
 					}
 				}
 				return true
 			}
-			return only(in.Block())
+			return enteredOnlyOverCompare2(in.Block(), isW, found)
 		}
 		cutOut := func(a *Term, old func(*Term) bool) bool {
 			if a.Op != "append" || len(a.Args) < 2 {
@@ -966,10 +977,16 @@ func c03Wrappers(c *Ctx, p *Prog, m *Model) {
 				args := callInstr.Common().Args
 				own := false
 				for _, alt := range te.eval(args[0], nil).alts() {
-					if alt.isFieldOf(recv, "writer") {
+					switch {
+					case alt.isFieldOf(recv, "writer"):
 						own = true
-					} else {
+					case alt.Op == "call" && ndw != nil && alt.V != nil && isCallTo(alt.V, ndw) && storedToField(alt.V, "writer"):
+						// the set just created for this logger and stored into its writer field ("give me the set, creating it first")
+						own = true
+					default:
 						own = false
+					}
+					if !own {
 						break
 					}
 				}
@@ -1385,4 +1402,111 @@ func sources2(v ssa.Value) []ssa.Value {
 	}
 	walk(v)
 	return out
+}
+
+
+func isCallTo(v ssa.Value, fn *ssa.Function) bool {
+	c, ok := v.(*ssa.Call)
+	return ok && calleeOf(c) == fn
+}
+
+// storedToField: v is stored into a field of that name (of any struct) in its own function.
+func storedToField(v ssa.Value, field string) bool {
+	refs := v.Referrers()
+	if refs == nil {
+		return false
+	}
+	for _, ref := range *refs {
+		if st, ok := ref.(*ssa.Store); ok {
+			if fa, ok := st.Addr.(*ssa.FieldAddr); ok && nm(structOf(fa.X.Type()).Field(fa.Field)) == field {
+				return true
+			}
+		}
+	}
+	return false
+}
+
+
+type edgeVal struct {
+	v    ssa.Value
+	from *ssa.BasicBlock
+}
+
+// phiEdgesWithPreds: the values v can take in block b with, for each, the block control comes from when it does.
+func phiEdgesWithPreds(v ssa.Value, b *ssa.BasicBlock) []edgeVal {
+	if ph, ok := v.(*ssa.Phi); ok && ph.Block() == b {
+		var out []edgeVal
+		for i, e := range ph.Edges {
+			out = append(out, phiEdgesWithPreds(e, b.Preds[i])...)
+		}
+		return out
+	}
+	return []edgeVal{{v, b}}
+}
+
+func enteredOnlyOverCompare(b *ssa.BasicBlock, isW func(ssa.Value) bool) bool {
+	return enteredOnlyOverCompare2(b, isW, nil)
+}
+
+// enteredOnlyOverCompare2: block b is entered only over true-edges of an equality comparison one operand of which
+// is the writer (isW), also as the value of a short-circuit expression, or of a condition accepted by extra.
+func enteredOnlyOverCompare2(b *ssa.BasicBlock, isW func(ssa.Value) bool, extra func(ssa.Value) bool) bool {
+	var holds func(cd ssa.Value, depth int) bool
+	holds = func(cd ssa.Value, depth int) bool {
+		cd, neg := normCond(cd)
+		if neg || depth > 6 {
+			return false
+		}
+		if extra != nil && extra(cd) {
+			return true
+		}
+		switch x := cd.(type) {
+		case *ssa.BinOp:
+			return x.Op == token.EQL && (isW(x.X) || isW(x.Y))
+		case *ssa.Phi:
+			for i, ed := range x.Edges {
+				if cb, isC := constBool(ed); isC {
+					if !cb {
+						continue
+					}
+					pi := ifOf(x.Block().Preds[i])
+					if pi == nil || !holds(pi.Cond, depth+1) {
+						return false
+					}
+					continue
+				}
+				if !holds(ed, depth+1) {
+					return false
+				}
+			}
+			return true
+		}
+		return false
+	}
+	seen := map[*ssa.BasicBlock]bool{}
+	var only func(b *ssa.BasicBlock) bool
+	only = func(b *ssa.BasicBlock) bool {
+		if seen[b] {
+			return true
+		}
+		seen[b] = true
+		for _, g := range guardsOf(b) {
+			if g.Succ == 0 && holds(g.If.Cond, 0) {
+				return true
+			}
+		}
+		if len(b.Preds) == 0 {
+			return false
+		}
+		for _, pr := range b.Preds {
+			if iff := ifOf(pr); iff != nil && pr.Succs[0] == b && pr.Succs[1] != b && holds(iff.Cond, 0) {
+				continue
+			}
+			if !only(pr) {
+				return false
+			}
+		}
+		return true
+	}
+	return only(b)
 }
